@@ -332,6 +332,20 @@ def run(ctx):
                         ctx.seed + 13, 12 if quick else 120, o["case"])}})
                 if sum(1 for f in ctx.findings if f["key"].startswith("engine:")) < 2:
                     ctx.findings.append({"key": "engine:" + why.split(":")[1][:40], "what": why, "replay": path})
+    # the error records as a user sees them: the real `sx socks -f <file>` with 260 bad entries, stderr lines counted
+    from checks import c08
+    if ctx.harness_build("c08"):
+        for o in c08.run_e2e(ctx):
+            if not o.get("bad_entries"):
+                continue
+            ctx.count("e2e-bad-entries", ("e2e", o["cmd"], o["bad_entries"]), nontrivial=True,
+                      sample={"cmd": o["cmd"], "bad_entries": o["bad_entries"], "error_records": o["err_records"]})
+            if o["err_records"] != o["bad_entries"] or o["exit"] != 0:
+                why = "sx %s --json -f <file with %d entries whose address is invalid>: %d error records on stderr, exit status %d " \
+                      "(every entry that cannot become a probe yields exactly one error record)" % (
+                          o["cmd"], o["bad_entries"], o["err_records"], o["exit"])
+                path = ctx.write_replay("e2e-bad-entries", {"property": "C13", "what": why, "input": {"args": o["args"]}, "observed": o})
+                ctx.findings.append({"key": "e2e:bad-entries", "what": why, "replay": path})
     if model_ok and rows:
         T.evaluate(ctx, rows, case_term, "From SX Require Import Base.Bytes Model.IPNet Spec.C13.", 16 if quick else 64, describe, CODES)
     return ctx.finish(rule=RULE)
